@@ -297,6 +297,37 @@ func (t *tracer) call(c *ssa.Call, idx int, ctx []frame, proj []string) *Set {
 		}
 		return out
 	}
+	// a package-level sync.Map used as a container: what is loaded is what the module stores
+	if callee.Signature.Recv() != nil && sx.IsNamed(callee.Signature.Recv().Type(), "sync", "Map") && len(args) >= 1 {
+		if g, ok := args[0].(*ssa.Global); ok && (callee.Name() == "Load" || callee.Name() == "LoadOrStore") {
+			if idx != 0 {
+				out.Add(&Origin{Kind: Const, Desc: "bool"})
+				return out
+			}
+			n := 0
+			for _, fn := range e.P.ModFuncs() {
+				sx.EachInstr(fn, func(in ssa.Instruction) {
+					sc, ok := in.(ssa.CallInstruction)
+					if !ok {
+						return
+					}
+					f := sx.Callee(sc)
+					if f == nil || f.Signature.Recv() == nil || !sx.IsNamed(f.Signature.Recv().Type(), "sync", "Map") {
+						return
+					}
+					a := sc.Common().Args
+					if len(a) == 3 && a[0] == ssa.Value(g) && (f.Name() == "Store" || f.Name() == "LoadOrStore" || f.Name() == "Swap") {
+						n++
+						out.AddAll(t.trace(a[2], nil, proj))
+					}
+				})
+			}
+			if n == 0 {
+				out.Add(&Origin{Kind: Const, Desc: "zero (nothing is ever stored in " + g.Name() + ")"})
+			}
+			return out
+		}
+	}
 	name := callee.Name()
 	inMod := e.P.InModule(callee)
 	if inMod && callee.Signature.Recv() == nil {
